@@ -4,7 +4,7 @@ import os
 from .. import core
 
 DEVS = ["D_KeepParams", "D_KeepData", "D_KeepErrors", "D_KeepIndex", "D_KeepWriter", "D_KeepResp", "D_KeepReq"]
-MUTS = {"set", "params", "error", "abort", "write", "resp", "req", "hijack", "query", "delegate", "sethandlers", "renderfail"}
+MUTS = {"set", "params", "error", "abort", "write", "resp", "req", "hijack", "query", "delegate", "sethandlers", "renderfail", "allowed"}
 
 
 def pcfg(kinds, maxhist, maxmut, emit=True, **dev):
